@@ -11,14 +11,17 @@ COQ_CHECK = ("Model.C04", "check")
 COQ_FALLBACK = None
 COQ_IMPORTS = ""
 SHARD = 12
-RULE = ("imaging datasets on random masks (densities 0.15-0.9, single pixel, ring with hole, full block) of <= 20 unmasked pixels in "
-        "frames up to 9x9 whose kernel footprint stays inside the frame; PSFs of shape {1x1,1x3,3x1,3x3,3x5,5x3,1x5,5x5} with signed / "
+RULE = ("imaging datasets on random masks (densities 0.15-0.9, single pixel, ring with hole, full block, full line along the kernel's long "
+        "axis, corners + centre, a pixel pair at an extreme offset of the kernel overlap with the later pixel to the left or right) of <= 20 unmasked pixels in frames up to 10x10 whose kernel footprint stays inside the frame; PSFs of "
+        "shape {1x1,1x3,3x1,3x3,3x5,5x3,1x5,5x1,5x5,1x7,7x1} with signed / "
         "non-negative integer entries (use_normalized_psf=False so every double operation is exact); integer data of either sign; noise in "
         "{1/2,1,2,4} per pixel; 1..3 linear objects in random order mixing real MapperRectangular / MapperDelaunay objects (sub_size 1, 2, "
         "per-pixel {1,2,4}; affine + bilinear source-plane distortions; with / without regularization) and function lists (random sparse "
         "matrices, optional operated override); both use_w_tilde settings on the same inputs through aa.Inversion (class chosen, "
         "operated_mapping_matrix, data_vector, curvature_matrix, mapped_reconstructed_data for an injected integer reconstruction), the two "
-        "formalisms compared with each other (D, F, mapped data, and the solved reconstruction where F+H is well conditioned); plus every "
+        "formalisms compared with each other (D, F, mapped data, and the solved reconstruction where F+H is well conditioned); read-order "
+        "independence: a second instance on which curvature_reg_matrix / reconstruction / mapped_reconstructed_data are read BEFORE "
+        "operated_mapping_matrix / data_vector / curvature_matrix (late values judged by the same model + spec unless bit-identical); plus every "
         "anchored util function called directly on synthetic inputs (random sparse encodings with filler entries, random upper-triangular "
         "preloads, asymmetric matrices for the mirror, duplicate indices for the diagonal term). Non-trivial = at least 2 unmasked pixels "
         "and a kernel with more than one non-zero entry (inversion cases) / any util case; distinct = distinct JSON input.")
@@ -36,7 +39,7 @@ ASSUMPTIONS = ["real arithmetic (no rounding): theorems over R; correspondence e
                "kernel footprint of every unmasked pixel inside the frame (the property's quantifier); positive noise on unmasked pixels",
                "preloads (Preloads object) are not exercised here (C15)"]
 
-PSF_SHAPES = [(1, 1), (1, 3), (3, 1), (3, 3), (3, 3), (3, 5), (5, 3), (1, 5), (5, 5)]
+PSF_SHAPES = [(1, 1), (1, 3), (3, 1), (3, 3), (3, 3), (3, 5), (5, 3), (1, 5), (5, 1), (5, 5), (1, 7), (7, 1)]
 NOISE = [Fraction(1, 2), Fraction(1), Fraction(2), Fraction(4)]
 STATS = {}
 
@@ -57,6 +60,36 @@ def rand_mask(rng, H, W, kh, kw, style, maxpix):
             if y in (y0, y1 - 1) or x in (x0, x1 - 1): m[y][x] = False
     elif style == "full":
         for (y, x) in cells: m[y][x] = False
+    elif style == "line":
+        # a full row / column of the admissible cells along the kernel's long axis: pixel pairs at every separation up to and
+        # beyond 2 * (k // 2) along that axis (the limit of the overlap), plus a second line two cells away when there is room
+        horiz = kw > kh or (kw == kh and rng.random() < 0.5)
+        if horiz:
+            y = rng.randrange(y0, y1)
+            for x in range(x0, x1): m[y][x] = False
+            if y + 2 < y1 and rng.random() < 0.5:
+                for x in range(x0, x1, 2): m[y + 2][x] = False
+        else:
+            x = rng.randrange(x0, x1)
+            for y in range(y0, y1): m[y][x] = False
+            if x + 2 < x1 and rng.random() < 0.5:
+                for y in range(y0, y1, 2): m[y][x + 2] = False
+    elif style == "pair":
+        # two pixels at an extreme offset of the kernel overlap (|dy| = 2*(kh//2) or |dx| = 2*(kw//2), either sign of dx, so that the
+        # later pixel in slim order can lie to the LEFT of the earlier one), plus a few random ones
+        for _ in range(20):
+            y, x = rng.choice(cells)
+            dy = rng.choice([0, 2 * (kh // 2), 2 * (kh // 2), rng.randint(0, 2 * (kh // 2))])
+            dx = rng.choice([-2 * (kw // 2), 2 * (kw // 2), -rng.randint(0, 2 * (kw // 2)), -(kw // 2) - 1 if kw > 1 else 0])
+            if (y + dy, x + dx) in cells and (dy, dx) != (0, 0):
+                m[y][x] = False; m[y + dy][x + dx] = False
+                break
+        else:
+            y, x = rng.choice(cells); m[y][x] = False
+        for (y, x) in cells:
+            if rng.random() < 0.1: m[y][x] = False
+    elif style == "corners":
+        for (y, x) in ((y0, x0), (y0, x1 - 1), (y1 - 1, x0), (y1 - 1, x1 - 1), ((y0 + y1 - 1) // 2, (x0 + x1 - 1) // 2)): m[y][x] = False
     else:
         p = rng.choice([0.15, 0.3, 0.5, 0.7, 0.9])
         for (y, x) in cells:
@@ -78,8 +111,8 @@ def rand_kernel(rng, kh, kw):
 
 def rand_dataset(rng, maxpix):
     kh, kw = rng.choice(PSF_SHAPES)
-    H = rng.randint(kh + 1, min(9, kh + 5)); W = rng.randint(kw + 1, min(9, kw + 5))
-    m = rand_mask(rng, H, W, kh, kw, rng.choice(["random", "random", "random", "single", "ring", "full"]), maxpix)
+    H = rng.randint(kh + 1, min(10, kh + 5)); W = rng.randint(kw + 1, min(10, kw + 5))
+    m = rand_mask(rng, H, W, kh, kw, rng.choice(["random", "random", "random", "single", "ring", "full", "line", "corners", "pair", "pair"]), maxpix)
     K = rand_kernel(rng, kh, kw)
     data = [[rng.randint(-9, 9) for _ in range(W)] for _ in range(H)]
     noise = [[S(rng.choice(NOISE)) for _ in range(W)] for _ in range(H)]
@@ -277,6 +310,26 @@ def run_inv(aa, inp):
                 rec = np.array(inv3.reconstruction); recmapped = np.array(inv3.mapped_reconstructed_data)
         except Exception as e:   # singular systems, degenerate solutions: C05
             rec = None
+        # read-order independence (cached quantities): on a fresh instance read curvature_reg_matrix / reconstruction /
+        # mapped_reconstructed_data / ... FIRST, then operated_mapping_matrix, data_vector, curvature_matrix.  If any of them is
+        # not bit-identical to the fresh-order read, the late values go through the same Coq comparison (model + spec) as an
+        # extra KInv case; identical values have already been judged above.
+        inv4 = aa.Inversion(dataset=dataset, linear_obj_list=los, settings=settings)
+        for name in ("curvature_reg_matrix", "reconstruction", "mapped_reconstructed_data", "curvature_reg_matrix_reduced",
+                     "regularization_term", "reconstruction_dict", "mapped_reconstructed_image"):
+            try: getattr(inv4, name)
+            except Exception:      # singular / degenerate systems are C05's; keep going with an injected reconstruction
+                if name == "reconstruction": inv4.__dict__["reconstruction"] = flv(r)
+        B4 = np.array(inv4.operated_mapping_matrix); D4 = np.array(inv4.data_vector); F4 = np.array(inv4.curvature_matrix)
+        if B4.shape == B.shape and D4.shape == D.shape and F4.shape == F.shape and \
+           np.array_equal(B4, B) and np.array_equal(D4, D) and np.array_equal(F4, F):
+            tally("late_read_identical")
+        else:
+            tally("late_read_differs")
+            terms.append(f"(KInv {cmask(m)} {cqm(K)} {cqv(d)} {cqv(s)} {cobjs} {cbool(is_wt)} {cq(eps)} {cq(tol)} "
+                         f"{cqm(fm(B4))} {cqv(fv(D4))} {cqm(fm(F4))})")
+            outs[str(use) + "_read_after_reconstruction"] = {"D": D4.tolist(), "F": F4.tolist()}
+            detail["read_order"] = "curvature_matrix / data_vector read after reconstruction differ from the fresh read"
         res[use] = dict(is_wt=is_wt, B=B, D=D, F=F, mapped=mapped, r=r, rec=rec, recmapped=None if rec is None else recmapped)
         outs[str(use)] = {"class": type(inv).__name__, "D": D.tolist(), "F": F.tolist()}
     a, b = res[False], res[True]
